@@ -209,10 +209,19 @@ func runStress(c stressCase, prop string) (overlap bool, err error) {
 		}
 	}
 	stop := make(chan struct{})
+	var crashed atomic.Value // first panic raised by the library on a harness goroutine
+	guard := func() {
+		if r := recover(); r != nil {
+			buf := make([]byte, 8192)
+			n := runtime.Stack(buf, false)
+			crashed.CompareAndSwap(nil, fmt.Sprintf("panic: %v\n%s", r, buf[:n]))
+		}
+	}
 	var bg sync.WaitGroup
 	bg.Add(1)
 	go func() { // ticker: drives virtual time so that retransmissions and timeouts happen
 		defer bg.Done()
+		defer guard()
 		d := time.Duration(0)
 		for {
 			select {
@@ -248,6 +257,7 @@ func runStress(c stressCase, prop string) (overlap bool, err error) {
 		go func() {
 			defer wg.Done()
 			defer startersLeft.Add(-1)
+			defer guard()
 			for k := 0; k < c.PerStarter; k++ {
 				tx := &stressTx{id: s*256 + k, isDo: (s+k)%3 == 0}
 				txMu.Lock()
@@ -285,7 +295,15 @@ func runStress(c stressCase, prop string) (overlap bool, err error) {
 				}
 			}
 			done := make(chan error, 1)
-			go func() { done <- w.Client.Close() }()
+			go func() {
+				defer func() {
+					if r := recover(); r != nil {
+						crashed.CompareAndSwap(nil, fmt.Sprintf("panic in Close: %v", r))
+						done <- fmt.Errorf("Close panicked: %v", r)
+					}
+				}()
+				done <- w.Client.Close()
+			}()
 			for {
 				select {
 				case e := <-done:
@@ -322,6 +340,9 @@ func runStress(c stressCase, prop string) (overlap bool, err error) {
 	}
 	close(stop)
 	bg.Wait()
+	if p, _ := crashed.Load().(string); p != "" {
+		return false, fmt.Errorf("the client panicked under concurrent use: %s", p)
+	}
 	// a final Close for scenarios without closers / whose closers saw too few writes
 	if okCloses.Load() == 0 {
 		done := make(chan error, 1)
